@@ -303,12 +303,20 @@ def run(ctx):
         ctx.count("gen:trees")
         ctx.seen("nontrivial", s)
         ctx.seen("gen_depths", reftypes.depth(t))
-        if not check_one(ctx, s, "gen", case):
+        try:
+            ok0 = check_one(ctx, s, "gen", case)
+            if ok0:
+                check_public(ctx, s)
+        except RecursionError:
+            # the interpreter's recursion limit, not the grammar, decided:
+            # outside what C15 states (see META assumptions)
+            ctx.count("gen:recursion_limit_reached")
+            return
+        if not ok0:
             raise Discrepancy("C15", "harness-generated-invalid-name",
                               "harness bug: generated name rejected by "
                               "reference", {"input": s})
         ctx.count("gen:accepted")
-        check_public(ctx, s)
         if case.index % 50 == 0:
             ctx.sample({"stream": "gen", "input": s[:300],
                         "depth": reftypes.depth(t), "nodes": reftypes.size(t)})
@@ -319,11 +327,14 @@ def run(ctx):
             case.ops = [{"input": m}]
             ctx.count("cases")
             ctx.seen("nontrivial", m)
-            ok = check_one(ctx, m, "gen", case)
-            ctx.count("gen:mutants_accepted" if ok
-                      else "gen:mutants_rejected")
-            if rnd.random() < 0.5:
-                check_public(ctx, m)
+            try:
+                ok = check_one(ctx, m, "gen", case)
+                ctx.count("gen:mutants_accepted" if ok
+                          else "gen:mutants_rejected")
+                if rnd.random() < 0.5:
+                    check_public(ctx, m)
+            except RecursionError:
+                ctx.count("gen:recursion_limit_reached")
 
     for case in ctx.cases("gen", ctx.params.get("n_gen", 1500)):
         ctx.run_case(case, one)
